@@ -590,6 +590,13 @@ def _const_truth(e):
     if isinstance(e, ast.UnaryOp) and isinstance(e.op, ast.Not):
         v = _const_truth(e.operand)
         return None if v is None else not v
+    if isinstance(e, ast.Compare) and len(e.ops) == 1 and isinstance(e.ops[0], (ast.Is, ast.IsNot)):
+        # a display of plain names / literals is an object of its own, never None
+        a, b = e.left, e.comparators[0]
+        for x, y in ((a, b), (b, a)):
+            if isinstance(x, (ast.Tuple, ast.List, ast.Dict, ast.Set)) and isinstance(y, ast.Constant) and y.value is None and \
+                    all(isinstance(n, (ast.Name, ast.Constant, ast.Tuple, ast.List, ast.Dict, ast.Set, ast.Load)) for n in ast.walk(x)):
+                return isinstance(e.ops[0], ast.IsNot)
     if isinstance(e, ast.Compare) and len(e.ops) == 1 and isinstance(e.left, ast.Constant) and isinstance(e.comparators[0], ast.Constant):
         a, b, op = e.left.value, e.comparators[0].value, e.ops[0]
         if isinstance(op, ast.Is):
@@ -643,6 +650,11 @@ def fold_decided_branches(tree, ref):
                         if v is None:
                             continue
                         block[i:i + 1] = (st.body if v else st.orelse) or [ast.copy_location(ast.Pass(), st)]
+                        # what follows a statement that always leaves never runs
+                        for j, s2 in enumerate(block):
+                            if isinstance(s2, (ast.Return, ast.Raise, ast.Continue, ast.Break)) and j + 1 < len(block):
+                                del block[j + 1:]
+                                break
                         changed = True
                         total += 1
                         break
@@ -994,6 +1006,19 @@ def dissolve_namedtuples(tree, ref, path=None, model=None):
     total = 0
     new_nt = {}
     for i, st in enumerate(list(tree.body)):
+        # X = namedtuple('T', 'a b c') under a name the reference does not have
+        if isinstance(st, ast.Assign) and len(st.targets) == 1 and isinstance(st.targets[0], ast.Name) and isinstance(st.value, ast.Call) and \
+                _txt(st.value.func) in ('namedtuple', 'collections.namedtuple') and len(st.value.args) == 2 and not st.value.keywords and \
+                st.targets[0].id not in known_consts and st.targets[0].id not in known_classes:
+            spec = st.value.args[1]
+            names_ = None
+            if isinstance(spec, ast.Constant) and isinstance(spec.value, str):
+                names_ = spec.value.replace(',', ' ').split()
+            elif isinstance(spec, (ast.List, ast.Tuple)) and all(isinstance(e, ast.Constant) and isinstance(e.value, str) for e in spec.elts):
+                names_ = [e.value for e in spec.elts]
+            if names_ and len(set(names_)) == len(names_) and all(n_.isidentifier() and not n_.startswith('_') for n_ in names_):
+                new_nt[st.targets[0].id] = [(n_, None) for n_ in names_]
+            continue
         if not isinstance(st, ast.ClassDef):
             continue
         fields = _namedtuple_fields(st)
@@ -1479,6 +1504,118 @@ def scalarise_tuple_locals(tree, ref, ref_locals):
     return total
 
 
+def sink_flag_tails(tree, ref, ref_locals):
+    """An if / elif / else chain whose every branch sets the same NEW locals (a "plan": flags and values), followed by statements that
+    test them: the statements after the chain are what each branch continues with, so they are written into each branch (tail
+    duplication, always meaning preserving) with the locals of that branch given names of their own - single bindings that the
+    decided / temps passes then fold away.  Undoes "decide first, act later" splits of code the reference wrote once per case."""
+    total = 0
+    for q, fn in functions(tree):
+        want = (ref_locals or {}).get(q)
+        if want is None:
+            continue
+        params = {a.arg for a in fn.args.posonlyargs + fn.args.args + fn.args.kwonlyargs}
+        for _ in range(8):
+            changed = False
+            for block in _blocks(fn):
+                for i, st in enumerate(block):
+                    rest = block[i + 1:]
+                    if not (isinstance(st, ast.If) and st.orelse and rest and isinstance(rest[0], ast.If)):
+                        continue
+                    names = {n.id for n in ast.walk(rest[0].test) if isinstance(n, ast.Name)}
+                    if not names or any(n in want or n in params for n in names) or \
+                            any(isinstance(n, (ast.Call, ast.Attribute, ast.Subscript)) for n in ast.walk(rest[0].test)):
+                        continue
+                    # worth doing only where the reference writes out per case what is written once here: some call of the statements
+                    # after the chain has more sites in the reference function than in this one
+                    ref_calls = (ref.get('calls') or {}).get(q, {})
+                    now_calls = call_counts(fn)
+                    merged = any(isinstance(n, ast.Call) and ref_calls.get(_txt(n.func), 0) > now_calls.get(_txt(n.func), 0) for x in rest for n in ast.walk(x))
+                    if sum(1 for x in rest for _n in ast.walk(x)) > 400 or \
+                            any(isinstance(n, (ast.FunctionDef, ast.AsyncFunctionDef, ast.ClassDef)) for x in rest for n in ast.walk(x)):
+                        continue
+                    # the leaves of the chain: statement lists that end a complete if/else nest
+                    leaves = []
+
+                    def collect(stmts):
+                        last = stmts[-1] if stmts else None
+                        if isinstance(last, ast.If) and last.orelse:
+                            collect(last.body)
+                            collect(last.orelse)
+                        else:
+                            leaves.append(stmts)
+                    collect([st])
+                    if len(leaves) < 2 or len(leaves) > 8:
+                        continue
+                    # every name the rest reads and a leaf sets: all leaves that go on must set all tested names directly (plain bindings)
+                    def sets(stmts):
+                        return {s_.targets[0].id for s_ in stmts if isinstance(s_, ast.Assign) and len(s_.targets) == 1 and isinstance(s_.targets[0], ast.Name)}
+                    going = [l for l in leaves if not _all_paths_leave(l)]
+                    if not going or not all(names <= sets(l) for l in going):
+                        continue
+                    # ... or the test is pure plumbing: the value each branch binds (a literal, None, a display of names) decides it
+                    def decided_in(leaf):
+                        env = {}
+                        for s_ in leaf:
+                            if isinstance(s_, ast.Assign) and len(s_.targets) == 1 and isinstance(s_.targets[0], ast.Name) and s_.targets[0].id in names:
+                                env[s_.targets[0].id] = s_.value
+                        if not all(isinstance(v, ast.Constant) or (isinstance(v, (ast.Tuple, ast.List)) and all(isinstance(e_, (ast.Name, ast.Constant)) for e_ in v.elts))
+                                   for v in env.values()):
+                            return False
+                        return _const_truth(_Subst(env).visit(copy.deepcopy(rest[0].test))) is not None
+                    if not merged and not all(decided_in(l) for l in going):
+                        continue
+                    plan = set.intersection(*[sets(l) for l in going]) - set(want) - params
+                    # the plan names live only between their binding in a leaf and the statements after the chain
+                    region = {id(n) for x in [st] + rest for n in ast.walk(x)}
+                    if any(isinstance(n, ast.Name) and n.id in plan and id(n) not in region for n in ast.walk(fn)):
+                        plan = {n_ for n_ in plan if not any(isinstance(n, ast.Name) and n.id == n_ and id(n) not in region for n in ast.walk(fn))}
+                    if not names <= plan:
+                        continue
+                    if any(isinstance(n, (ast.Lambda,)) and any(isinstance(x, ast.Name) and x.id in plan for x in ast.walk(n)) for l in leaves for s_ in l for n in ast.walk(s_)):
+                        continue
+                    for k, leaf in enumerate(going):
+                        tail = copy.deepcopy(rest)
+                        # where this leaf's own bindings decide the first test, only the chosen branch follows (and nothing after a
+                        # statement that leaves)
+                        env_ = {}
+                        for s_ in leaf:
+                            if isinstance(s_, ast.Assign) and len(s_.targets) == 1 and isinstance(s_.targets[0], ast.Name) and s_.targets[0].id in names:
+                                env_[s_.targets[0].id] = s_.value
+                        if all(isinstance(v, ast.Constant) or (isinstance(v, (ast.Tuple, ast.List)) and all(isinstance(e_, (ast.Name, ast.Constant)) for e_ in v.elts))
+                               for v in env_.values()) and set(env_) == names:
+                            tv = _const_truth(_Subst(env_).visit(copy.deepcopy(tail[0].test)))
+                            if tv is not None:
+                                tail[0:1] = copy.deepcopy(tail[0].body if tv else tail[0].orelse)
+                                for j, s2 in enumerate(tail):
+                                    if isinstance(s2, (ast.Return, ast.Raise, ast.Continue, ast.Break)):
+                                        del tail[j + 1:]
+                                        break
+                        # each plan name: from its last plain binding in this leaf on, it is this leaf's own variable
+                        for n_ in sorted(plan):
+                            idx = max(j for j, s_ in enumerate(leaf) if isinstance(s_, ast.Assign) and len(s_.targets) == 1 and isinstance(s_.targets[0], ast.Name) and s_.targets[0].id == n_)
+                            if any(isinstance(x, ast.Name) and x.id == n_ and isinstance(x.ctx, ast.Store) for s_ in tail for x in ast.walk(s_)):
+                                continue                          # re-bound later: keeps its name
+                            new = '%s__%d' % (n_, k + 1)
+                            leaf[idx].targets[0].id = new
+                            for s_ in leaf[idx + 1:] + tail:
+                                for x in ast.walk(s_):
+                                    if isinstance(x, ast.Name) and x.id == n_:
+                                        x.id = new
+                        leaf.extend(tail)
+                    del block[i + 1:]
+                    changed = True
+                    total += 1
+                    break
+                if changed:
+                    break
+            if not changed:
+                break
+    if total:
+        ast.fix_missing_locations(tree)
+    return total
+
+
 def restore_self(tree, ref):
     """A method the reference wrote with `self` that was made a @staticmethod (it never used self) gets its first parameter back;
     `Class.m(..)` calls from methods of the class become `self.m(..)`.  Which object the function is looked up on does not change what
@@ -1754,7 +1891,19 @@ def shape_of(tree):
         'decos': {q: [_txt(d) for d in f.decorator_list] for q, f in functions(tree) if f.decorator_list},
         'ends_with_return': sorted(q for q, f in functions(tree) if f.body and isinstance(f.body[-1], ast.Return)),
         'bool_returns': {q: _bool_returns(f) for q, f in functions(tree) if _bool_returns(f)},
+        'calls': {q: call_counts(f) for q, f in functions(tree) if call_counts(f)},
     }
+
+
+def call_counts(fn):
+    """{callee text: number of call sites} of a function (own scope and lambdas; nested defs excluded)"""
+    out = {}
+    for n in _own_walk(fn):
+        if isinstance(n, ast.Call):
+            t = _txt(n.func)
+            if len(t) <= 60:
+                out[t] = out.get(t, 0) + 1
+    return out
 
 
 # ---------------------------------------------------------------------------------------------- helpers
@@ -2504,6 +2653,18 @@ def _structure_returns(stmts):
             if rest and s_.orelse and _all_paths_leave(s_.orelse) and not _all_paths_leave(s_.body):
                 s_.body = s_.body + _structure_returns(rest)
                 return stmts[:i + 1]
+            # a return somewhere inside, and a short REST after the if: REST is what every branch that does not leave continues with
+            # (tail duplication) - every return of the helper ends up in tail position
+            if rest and any(isinstance(n, ast.Return) for n in _own_walk(s_)) and sum(1 for x in rest for _ in ast.walk(x)) <= 80 and \
+                    not any(isinstance(n, (ast.FunctionDef, ast.AsyncFunctionDef, ast.ClassDef, ast.Lambda)) for x in rest for n in ast.walk(x)) and \
+                    not any(isinstance(n, ast.Return) for l_ in _own_walk(s_) if isinstance(l_, (ast.For, ast.While, ast.Try, ast.With)) for n in _own_walk(l_)):
+                if not _all_paths_leave(s_.body):
+                    s_.body = _structure_returns(s_.body + copy.deepcopy(rest))
+                if not s_.orelse:
+                    s_.orelse = _structure_returns(copy.deepcopy(rest))
+                elif not _all_paths_leave(s_.orelse):
+                    s_.orelse = _structure_returns(s_.orelse + copy.deepcopy(rest))
+                return stmts[:i + 1]
     return stmts
 
 
@@ -2803,13 +2964,61 @@ def _pure(expr, allow_self):
     return True
 
 
+def split_live_ranges(tree, ref_locals):
+    """A local the reference does not have that is bound in several places whose uses never meet (each use sits after exactly one of the
+    bindings, in that binding's own block) is several variables sharing a name: each binding gets a name of its own, so that the temps
+    pass - which wants single bindings - can look at them."""
+    total = 0
+    for q, fn in functions(tree):
+        want = (ref_locals or {}).get(q)
+        if want is None:
+            continue
+        params = {a.arg for a in fn.args.posonlyargs + fn.args.args + fn.args.kwonlyargs}
+        if fn.args.vararg:
+            params.add(fn.args.vararg.arg)
+        if fn.args.kwarg:
+            params.add(fn.args.kwarg.arg)
+        stores = {}
+        for n in ast.walk(fn):
+            if isinstance(n, ast.Name) and isinstance(n.ctx, (ast.Store, ast.Del)):
+                stores.setdefault(n.id, []).append(n)
+        declared = {x for n in ast.walk(fn) if isinstance(n, (ast.Global, ast.Nonlocal)) for x in n.names}
+        for name, sts in stores.items():
+            if len(sts) < 2 or name in want or name in params or name in declared:
+                continue
+            sites = []
+            for block in _blocks(fn):
+                for i, st in enumerate(block):
+                    if isinstance(st, ast.Assign) and len(st.targets) == 1 and isinstance(st.targets[0], ast.Name) and st.targets[0].id == name:
+                        sites.append((block, i, st))
+            if len(sites) != len(sts):
+                continue                                    # bound by a loop, a with, a tuple target ...
+            regions = [{id(x) for s_ in block[i + 1:] for x in ast.walk(s_)} for block, i, st in sites]
+            if any(id(st) in regions[k] for k in range(len(sites)) for _, _, st in sites):
+                continue                                    # one binding inside the range of another
+            uses = [n for n in ast.walk(fn) if isinstance(n, ast.Name) and n.id == name and isinstance(n.ctx, ast.Load)]
+            if any(sum(1 for r in regions if id(u) in r) != 1 for u in uses):
+                continue
+            # the value of a binding must not read the name itself (x = x + 1 continues an older range)
+            if any(isinstance(x, ast.Name) and x.id == name for _, _, st in sites for x in ast.walk(st.value)):
+                continue
+            for k, (block, i, st) in enumerate(sites):
+                new = '%s__r%d' % (name, k + 1)
+                st.targets[0].id = new
+                for u in uses:
+                    if id(u) in regions[k]:
+                        u.id = new
+            total += 1
+    return total
+
+
 def inline_temps(tree, path, ref_locals):
     total = 0
     for q, fn in functions(tree):
         want = ref_locals.get(q)
         if want is None:
             continue
-        for _ in range(6):
+        for _ in range(40):
             have = binding_order(fn)
             unknown = [h for h in have if h not in want]
             if not unknown:
@@ -3243,6 +3452,38 @@ def _rebound_around(fn, name_node):
 
 
 # ---------------------------------------------------------------------------------------------- driver
+def _settle(tree, ref, path, ref_locals):
+    """decided branches, live ranges, temps and dead stores feed each other: repeat until nothing moves"""
+    total = 0
+    for _ in range(5):
+        k = fold_decided_branches(tree, ref) + drop_dead_stores(tree, ref_locals) + split_live_ranges(tree, ref_locals) + inline_temps(tree, path, ref_locals)
+        total += k
+        if not k:
+            break
+    return total
+
+
+def drop_dead_stores(tree, ref_locals):
+    """`name = <literal>` for a local the reference does not have and nothing reads"""
+    total = 0
+    for q, fn in functions(tree):
+        want = (ref_locals or {}).get(q)
+        if want is None:
+            continue
+        loads = {n.id for n in ast.walk(fn) if isinstance(n, ast.Name) and isinstance(n.ctx, (ast.Load, ast.Del))}
+        declared = {x for n in ast.walk(fn) if isinstance(n, (ast.Global, ast.Nonlocal)) for x in n.names}
+        for block in _blocks(fn):
+            for st in list(block):
+                if isinstance(st, ast.Assign) and len(st.targets) == 1 and isinstance(st.targets[0], ast.Name) and isinstance(st.value, ast.Constant) and \
+                        st.targets[0].id not in loads and st.targets[0].id not in want and st.targets[0].id not in declared:
+                    if len(block) > 1:
+                        block.remove(st)
+                    else:
+                        block[0] = ast.copy_location(ast.Pass(), st)
+                    total += 1
+    return total
+
+
 def normalise(tree, path, ref_locals, model=None):
     """-> dict of counts per rewrite (empty if nothing changed)"""
     if os.environ.get('VERIF_NO_UNREFACTOR'):
@@ -3256,10 +3497,11 @@ def normalise(tree, path, ref_locals, model=None):
                      ('methods', lambda: rename_methods(tree, ref)), ('formats', lambda: restyle_formats(tree, ref)), ('closures', lambda: restore_closures(tree, ref) + restore_closures_from_objects(tree, ref)), ('self', lambda: restore_self(tree, ref)), ('tuples', lambda: split_tuple_bindings(tree, ref)), ('suppress', lambda: expand_suppress(tree, ref)), ('constants', lambda: _constants(tree, ref)),
                      ('observability', lambda: drop_observability(tree, ref)), ('params', lambda: default_new_params(tree, ref) + default_new_params(tree, ref)), ('initliterals', lambda: inline_init_literals(tree, ref)),
                      ('structs', lambda: inline_struct_objects(tree, ref)),
-                     ('anytests', lambda: lower_any_tests(tree, ref)), ('helpers', lambda: inline_helpers(tree, ref)), ('namedtuples2', lambda: dissolve_namedtuples(tree, ref, path, model)), ('records', lambda: scalarise_records(tree, ref)), ('tuplevars', lambda: scalarise_tuple_locals(tree, ref, ref_locals)), ('decided', lambda: fold_decided_branches(tree, ref)), ('trivia', lambda: drop_trivia(tree, ref)), ('ifexps', lambda: expand_ifexps(tree, ref)), ('boolreturns', lambda: expand_bool_returns(tree, ref)),
+                     ('anytests', lambda: lower_any_tests(tree, ref)), ('helpers', lambda: inline_helpers(tree, ref)), ('namedtuples2', lambda: dissolve_namedtuples(tree, ref, path, model)), ('records', lambda: scalarise_records(tree, ref)), ('tuplevars', lambda: scalarise_tuple_locals(tree, ref, ref_locals)), ('flagtails', lambda: sink_flag_tails(tree, ref, ref_locals)), ('decided', lambda: fold_decided_branches(tree, ref)), ('trivia', lambda: drop_trivia(tree, ref)), ('ifexps', lambda: expand_ifexps(tree, ref)), ('boolreturns', lambda: expand_bool_returns(tree, ref)),
                      ('unrolled', lambda: unroll_loops(tree, ref)),
                      ('comprehensions', lambda: expand_comprehensions(tree, ref)), ('ifexps2', lambda: expand_ifexps(tree, ref)),
-                     ('temps', lambda: inline_temps(tree, path, ref_locals or {}))):
+                     ('ranges', lambda: split_live_ranges(tree, ref_locals or {})), ('temps', lambda: inline_temps(tree, path, ref_locals or {})),
+                     ('decided2', lambda: _settle(tree, ref, path, ref_locals or {}))):
         try:
             k = fn()
         except RecursionError:
